@@ -171,3 +171,26 @@ Qed.
 (* the measure of a small initial state: a bound on the length of every execution from it *)
 Example ex_measure : measure (init 2 [SReq 0; SReq 1; SDel]) = 18 + 18 + 28.
 Proof. reflexivity. Qed.
+
+(* --- what the theorems above presuppose of a callback: that it returns without waiting for another
+   DoWithShard on the same entry. Thread 0 is inside its callback (REnd), the idle timer has fired and the
+   routine has announced itself on the entry lock (ILockPend); thread 1 stands for a DoWithShard the callback
+   of thread 0 makes itself (the same goroutine) and waits for. Thread 1 cannot take the read lock (a writer
+   is announced), the routine cannot take the write lock (thread 0 holds a read lock), and the only thread
+   that can move is thread 0 -- which, waiting for thread 1, does not: a callback that re-enters never returns
+   once the timer has fired. The run executes the five real callbacks of the node under exactly this schedule
+   (Run_C12.CRpc). *)
+Definition nested_sched : list tid := [TC 0; TC 0; TC 0; TC 0; TC 0; TC 0; TI 0; TI 0; TC 1; TC 1; TC 1].
+Theorem c12_reentrant_callback_blocks :
+  let st := run true nested_sched (init 1 [SReq 0; SReq 0]) in
+  T st 0 = CReq 0 (REnd 0) /\ T st 1 = CReq 0 (RRLock 0) /\
+  e_idle (E st 0) = ILockPend /\ e_w (E st 0) = Some (TI 0, false) /\ e_rd (E st 0) = [0] /\
+  enabledb true st (TC 1) = false /\ enabledb true st (TI 0) = false /\
+  forall t, enabledb true st t = true -> In t (all_tids st) -> t = TC 0.
+Proof.
+  cbv zeta. repeat split; try (vm_compute; reflexivity).
+  intros t He Hin.
+  assert (Hall : all_tids (run true nested_sched (init 1 [SReq 0; SReq 0])) = [TC 0; TC 1; TI 0]) by (vm_compute; reflexivity).
+  rewrite Hall in Hin. destruct Hin as [H|[H|[H|[]]]]; subst t; [reflexivity| |]; vm_compute in He; discriminate.
+Qed.
+Print Assumptions c12_reentrant_callback_blocks.
